@@ -44,13 +44,15 @@ def run(ctx):
             if b.dominates(c.bb, cb.exp_main.bb):
                 fe += b.branch(c, False)
         some = [e[1] for e in cb.prop_loop_some]
-        for ins in cb.as_inserts:
-            ok = bool(fe) and b.edges_dominate(fe, ins.bb, frm=some)
-            ctx.check(ok, 'C13-R2', 'first-discovery-kept@%s' % role_of_insert(cb, ins), b,
+        for kind in ('Always', 'Sometimes'):
+            # one instance per kind of property, whether the arms share one insert or have their own
+            sites = [c for c in cb.as_inserts if c.bb in cb.cell(kind)]
+            ok = bool(fe) and bool(sites) and all(b.edges_dominate(fe, c.bb, frm=some) for c in sites)
+            ctx.check(ok, 'C13-R2', 'first-discovery-kept@%s' % kind, b,
                       good='insert only when no discovery exists yet for the property',
                       bad='BFS: the %s discovery at %s can overwrite an earlier (shallower) one: the '
                           'reported witness is not the first/shortest found' %
-                          (role_of_insert(cb, ins), ins.span), span=ins.span)
+                          (kind, [c.span for c in sites]), span=sites[0].span if sites else None)
     with ctx.rule('C13-R3', 'BFS'):
         cb = CB(F, 'BFS')
         b = cb.b
